@@ -45,11 +45,13 @@ MODELLED = ('Segmentation.__init__ pixel path (_check_segment_numbers, bit depth
             'offset table + read_frame_raw length; pydicom pack_bits/unpack_bits re-modelled; the decoded-array '
             'cache (Image.pixel_array / _pixel_array: whole PixelData decoded at once, then indexed by '
             'get_stored_frame / get_stored_frames / _get_pixels_by_frame) and the combine_segments=True branch of '
-            '_get_pixels_by_seg_frame (binary check, overlap check, label assembly). Not modelled: '
+            '_get_pixels_by_seg_frame (binary check, overlap check, label assembly); seg/utils.py iter_segments; the '
+            'worker pool of the constructor (tasks submitted in frame order, completed in any order, gathered by '
+            'future identity). Not modelled: '
             'geometry (plane sorting, taken as input), dataset attribute copying, codecs, file I/O, the memory '
             'layout of the input numpy array (the model sees values only; layouts are exercised, kind rt_layout).')
 STRATA = ['rt', 'rt_mf', 'rt_nofor', 'rt_encaps', 'rescale', 'malformed', 'odd', 'pack', 'frame_at', 'rhe',
-          'rt_layout', 'rt_hist']
+          'rt_layout', 'rt_hist', 'observe', 'sched']
 RULE = ('rt*: rows x cols with every residue of rows*cols mod 8 incl. < 8 pixels, 1..5 planes x 1..4 segments, '
         'masks empty/full/sparse/per-segment-empty planes, dtype bool/uint8/uint16/float32/float64, label-map and '
         'stacked layouts (2-D/3-D/4-D), BINARY/FRACTIONAL/LABELMAP (sparse and > 255 segment numbers), '
@@ -61,6 +63,11 @@ RULE = ('rt*: rows x cols with every residue of rows*cols mod 8 incl. < 8 pixels
         'the three objects (in memory, segread, lazy segread): stacked read, combine_segments=True read, access of '
         '.pixel_array (fills the decoded-array cache), get_stored_frame by number / by index, get_stored_frames, in '
         'any order, so that every read entry point is exercised with a cold and with a warm cache; '
+        'rt_hist also draws arbitrary request lists (sub-lists, repetitions, reorderings, unknown sources with '
+        'assert_missing_frames_are_empty) and masks whose combined read must be refused; the model evaluates the '
+        'specification of THAT request list (expected_req / spec_combined) on all four object / cache states; '
+        'observe: iter_segments of the read file and pydicom\'s own pixel_array of the written file, model-compared; '
+        'sched: encapsulated syntax with an Executor that completes the encode tasks in a rotated / reversed order; '
         'valid kinds: the model also evaluates its `valid` predicate and its specification (must both be true); malformed: every constructor and query guard violated once; pack/frame_at: pydicom packing, '
         'get_raw_frame/decode_frame/read_frame_raw on hand-made bit-packed images; '
         'non-trivial = at least one non-zero pixel read back (or a refusal); distinct by case hash')
@@ -478,6 +485,81 @@ def _hist_case(rng):
     if 'ambiguous' in _combine_status(c):
         h = [H_STACK if k == H_COMBINE else k for k in h]
     c['hist'] = h
+    # arbitrary request lists: sub-lists, repetitions, reorderings, absent sources
+    P = c['P']
+    u = rng.random()
+    if u < 0.45:
+        req = [rng.randrange(P) for _ in range(rng.randint(1, P + 2))]
+        if rng.random() < 0.35:
+            c['assert_missing'] = True
+            req.insert(rng.randrange(len(req) + 1), P + rng.randrange(2) if c['byframe'] else rng.choice([-1, P]))
+        c['req'] = req
+        c.pop('req_is_numbers', None)
+    return c
+
+
+def _refusal_case(rng):
+    """rt_hist with exactly ONE defective plane (a pixel in two segments, or a truly fractional value) and a
+    request list that either avoids it (the combined read must succeed) or contains it (must be refused with
+    the class of that defect)"""
+    while True:
+        c = _valid_case(rng, 'rt_hist', source=rng.choice(['series', 'series', 'mf']), ts=rng.choice([None, None, 'rle']),
+                        force_ty=rng.choice(['FRACTIONAL', 'FRACTIONAL', 'BINARY']))
+        if c['ty'] != 'LABELMAP' and c['P'] >= 2 and len(c['segs']) >= 2 and not c['two_d']:
+            break
+    P, n, S = c['P'], c['rows'] * c['cols'], len(c['segs'])
+    defect = rng.choice(['overlap', 'nonbinary', 'nonbinary']) if c['ty'] == 'FRACTIONAL' else 'overlap'
+    c['layout'] = 'stack'
+    if defect == 'nonbinary':
+        c['dtype'], c['den'], c['maxfrac'] = rng.choice(FLT_DT), rng.choice([2, 4, 256]), rng.choice([3, 100, 255])
+    den = c['den'] if c['dtype'] in FLT_DT else 1
+    c['den'] = den
+    m = _mask(rng, P, n, S, 'sparse')
+    d = rng.randrange(P)
+    px = m[d][rng.randrange(n)]
+    for k in range(S):
+        px[k] = 0
+    data = [[[v * den for v in q] for q in pl] for pl in m]
+    if defect == 'overlap':
+        a, b = rng.sample(range(S), 2)
+        px2 = data[d][m[d].index(px)]
+        px2[a] = px2[b] = den
+    else:
+        data[d][m[d].index(px)][rng.randrange(S)] = den // 2
+    c['data'] = data
+    others = [j for j in range(P) if j != d]
+    req = [rng.choice(others) for _ in range(rng.randint(1, P + 1))]
+    if rng.random() < 0.5:
+        req.insert(rng.randrange(len(req) + 1), d)
+    c['req'] = req
+    c.pop('req_is_numbers', None)
+    if c['byframe']:
+        c['assert_missing'] = True
+    c['hist'] = rng.choice([[H_COMBINE], [H_WARM, H_COMBINE], [H_COMBINE, H_STACK], [H_STACK, H_COMBINE, H_FRAMES]])
+    return c
+
+
+def _observe_case(rng):
+    """a valid object observed through iter_segments and pydicom's own pixel_array"""
+    while True:
+        ts = rng.choice([None, None, None, 'rle'])
+        c = _valid_case(rng, 'observe', source=rng.choice(['series', 'series', 'mf']), ts=ts)
+        if _nonzero(c):
+            break
+    c['workers'] = 0
+    return c
+
+
+def _sched_case(rng):
+    """encapsulated syntax, workers = an Executor that completes the encode tasks in the order
+    rot_order(n, r, rev): rotation by r of the submission order, optionally reversed"""
+    while True:
+        c = _valid_case(rng, 'sched', source=rng.choice(['series', 'series', 'mf']), ts='rle')
+        if c['P'] >= 2 and _nonzero(c):
+            break
+    c['workers'] = 'shuffle'
+    c['rot'] = rng.randrange(0, 7)
+    c['rev'] = rng.random() < 0.5
     return c
 
 
@@ -550,6 +632,12 @@ def gen_cases(rng, tier):
         cases.append(_layout_case(rng))
     for _ in range(50 * N):
         cases.append(_hist_case(rng))
+    for _ in range(24 * N):
+        cases.append(_refusal_case(rng))
+    for _ in range(24 * N):
+        cases.append(_observe_case(rng))
+    for _ in range(16 * N):
+        cases.append(_sched_case(rng))
     # pydicom packing
     for k in list(range(0, 20)) + [rng.randint(20, 70) for _ in range(10 * N)]:
         cases.append({'kind': 'pack', 'px': [rng.choice([0, 1]) for _ in range(k)]})
@@ -704,7 +792,8 @@ def _history(obj, c, uids, nframes):
             a = obj.get_pixels_by_source_frame(uids[0], c['req'], combine_segments=True,
                                                assert_missing_frames_are_empty=c['assert_missing'])
         else:
-            a = obj.get_pixels_by_source_instance([uids[j] for j in c['req']], combine_segments=True,
+            a = obj.get_pixels_by_source_instance([uids[j] if 0 <= j < len(uids) else '1.2.3.4.5.6' for j in c['req']],
+                                                  combine_segments=True,
                                                   assert_missing_frames_are_empty=c['assert_missing'])
         a = np.asarray(a)
         return a.reshape(a.shape[0], -1).tolist()
@@ -729,6 +818,53 @@ def _history(obj, c, uids, nframes):
     return out
 
 
+def _rot_order(n, r, rev):
+    o = [(k + r) % n for k in range(n)]
+    return o[::-1] if rev else o
+
+
+def _shuffle_executor(r, rev):
+    """an Executor that runs nothing at submit(); when the first result() is asked for it completes
+    ALL submitted tasks in the order rot_order(n, r, rev) - i.e. not in submission order"""
+    from concurrent.futures import Executor, Future
+
+    class Fut(Future):
+        def __init__(self, ex):
+            super().__init__()
+            self._ex = ex
+
+        def result(self, timeout=None):
+            if not self.done():
+                self._ex.run_all()
+            return super().result(timeout)
+
+    class Ex(Executor):
+        def __init__(self):
+            self.tasks = []
+            self.completed = []
+
+        def submit(self, fn, /, *a, **k):
+            f = Fut(self)
+            self.tasks.append((f, fn, a, k))
+            return f
+
+        def run_all(self):
+            n = len(self.tasks)
+            for t in _rot_order(n, r, rev):
+                f, fn, a, k = self.tasks[t]
+                if f.done():
+                    continue
+                try:
+                    f.set_result(fn(*a, **k))
+                except BaseException as e:   # noqa
+                    f.set_exception(e)
+                self.completed.append(t)
+
+        def shutdown(self, wait=True, *, cancel_futures=False):
+            pass
+    return Ex()
+
+
 def _seg_case(c):
     import logging
     import warnings
@@ -746,7 +882,10 @@ def _seg_case(c):
     uids = [s.SOPInstanceUID for s in src]
     pool = None
     workers = c['workers']
-    if workers == 'thread':
+    shuffler = None
+    if workers == 'shuffle':
+        workers = shuffler = _shuffle_executor(c['rot'], c['rev'])
+    elif workers == 'thread':
         workers = pool = ThreadPoolExecutor(2)
     elif workers:
         # the harness' own fork pool is daemonic; allow the library's process pool below it
@@ -780,6 +919,29 @@ def _seg_case(c):
     pdata = list(bytes(seg.PixelData)) if native else []
     if c['kind'] == 'rescale':
         return _read(seg, c, uids, rescale=True)
+    if c['kind'] == 'sched':
+        if shuffler is not None and shuffler.completed != _rot_order(nframes, c['rot'], c['rev']):
+            raise RuntimeError(f'the pool did not complete the tasks in the prescribed order: {shuffler.completed}')
+        return [nframes, meta, np.asarray(seg.get_stored_frames()).reshape(nframes, -1).tolist()]
+    if c['kind'] == 'observe':
+        buf = io.BytesIO()
+        seg.save_as(buf)
+        raw = buf.getvalue()
+        eager = hd.seg.segread(io.BytesIO(raw))
+        it = None
+        if c['ty'] != 'LABELMAP':
+            it = []
+            for frames, frame_descs, desc in eager.iter_segments():
+                grp = []
+                for k in range(frames.shape[0]):
+                    si = frame_descs[k].DerivationImageSequence[0].SourceImageSequence[0]
+                    j = int(si.ReferencedFrameNumber) - 1 if c['source'] == 'mf' else uids.index(si.ReferencedSOPInstanceUID)
+                    grp.append([j, np.asarray(frames[k]).ravel().tolist()])
+                it.append([int(desc.SegmentNumber), grp])
+        pa = None
+        if native:
+            pa = np.asarray(pydicom.dcmread(io.BytesIO(raw)).pixel_array).reshape(nframes, -1).tolist()
+        return [nframes, meta, it, pa, True]
     if c['kind'] == 'rt_hist':
         buf = io.BytesIO()
         try:
@@ -793,7 +955,7 @@ def _seg_case(c):
         # and cache state, and whether the input can be shown as one label map (decided here from the
         # input alone, in the model by `combinable`)
         return ([nframes, meta] + [_history(o, c, uids, nframes) for o in (seg, eager, lazy)] +
-                [True, True, all(st == 'ok' for st in _combine_status(c))])
+                [True, True, all(st == 'ok' for st in _combine_status(c)), True])
     r_mem = _read(seg, c, uids)
     buf = io.BytesIO()
     try:
@@ -962,8 +1124,12 @@ def coq_term(c):
     req = c['req']
     if k == 'rescale':
         return f"(run_rescaled {_cfg(c)} {inp} {zl(_perm(c))} {zl(req)})"
+    if k == 'observe':
+        return f"(run_observe {_cfg(c)} {inp} {zl(_perm(c))})"
+    if k == 'sched':
+        return f"(run_sched {_cfg(c)} {inp} {zl(_perm(c))} {c['rot']} {'true' if c['rev'] else 'false'})"
     if k == 'rt_hist':
-        return (f"(run_hist {_cfg(c)} {inp} {zl(_perm(c))} {zl(req)} "
+        return (f"(run_hist2 {_cfg(c)} {inp} {zl(_perm(c))} {zl(req)} "
                 f"{'true' if c['byframe'] else 'false'} {'true' if c['assert_missing'] else 'false'} {zl(c['hist'])})")
     fn = 'run_seg_spec' if k.startswith('rt') else 'run_seg'
     return (f"({fn} {_cfg(c)} {inp} {zl(_perm(c))} {zl(req)} "
@@ -1044,6 +1210,8 @@ def oracle(c, out):
         return None
     if k == 'rt_hist':
         return _oracle_hist(c, out, want)
+    if k in ('observe', 'sched'):
+        return _oracle_observe(c, out)
     nframes, meta, pdata, r_mem, r_file, r_lazy, extras = out[:7]
     if c['byframe'] and not c['assert_missing']:
         # documented refusal: a requested frame number above every referenced frame
@@ -1092,6 +1260,40 @@ def oracle(c, out):
             by = [x for v in flat for x in (v & 255, v >> 8)]
         if pdata[:len(by)] != by or len(pdata) % 2 or len(pdata) - len(by) > 1:
             return 'native PixelData is not the global packing of the stored frames'
+    return None
+
+
+def _oracle_observe(c, out):
+    """iter_segments yields exactly the non-empty (segment, source) planes of the input, grouped by segment
+    in ascending order; pydicom's pixel_array / the stored frames are the input planes of the frame keys"""
+    nframes, meta = out[0], out[1]
+    if len(set(map(tuple, meta))) != len(meta) or nframes != len(meta):
+        return 'duplicate or miscounted stored frames'
+    se = _stored_expected(c)
+    want_frames = [se[tuple(m)] for m in meta]
+    if c['kind'] == 'sched':
+        if out[2] != want_frames:
+            o = next((i for i, (a, b) in enumerate(zip(out[2], want_frames)) if a != b), -1)
+            return (f'workers completing the encode tasks in the order rot={c["rot"]} rev={c["rev"]}: stored frame '
+                    f'{o + 1} is not the plane of (segment, source) {meta[o] if o >= 0 else "?"}')
+        return None
+    it, pa = out[2], out[3]
+    if pa is not None and pa != want_frames:
+        return 'pydicom pixel_array of the written file differs from the input planes of the frame keys'
+    if it is not None:
+        seen = []
+        for s, grp in it:
+            for j, px in grp:
+                if px != se.get((s, j)):
+                    return f'iter_segments: frame of segment {s}, source {j} differs from the input'
+                seen.append((s, j))
+        if [s for s, _ in it] != sorted({s for s, _ in it}):
+            return 'iter_segments: segments not in ascending order'
+        if len(seen) != len(set(seen)) or len(seen) != nframes:
+            return f'iter_segments yielded {len(seen)} frames, NumberOfFrames is {nframes}'
+        for (s, j), px in se.items():
+            if any(px) and (s, j) not in seen:
+                return f'iter_segments: non-empty plane of segment {s}, source {j} not yielded'
     return None
 
 
@@ -1165,7 +1367,7 @@ def nontrivial(c, out):
         return True
     if k == 'rescale':
         return any(v for pl in out for px in pl for v in px)
-    if k == 'rt_hist':
+    if k in ('rt_hist', 'observe', 'sched'):
         return _nonzero(c)
     r = out[3]
     return isinstance(r, Err) or any(v for pl in r for px in pl for v in px)
